@@ -15,6 +15,23 @@ CHECKS = {
         technique="TLA+ refinement check (TLC) + per-transition behaviour replay + TLC trace validation"),
 }
 
+CHECKS["C02"] = dict(
+    category="model_checking", design_ref="DESIGN.md §5 C02",
+    text="XPathSem.tla is an executable definition of XPath 1.0 evaluation (axes, node tests, positional predicates, core functions, "
+         "comparison matrix, IEEE arithmetic on an exact dyadic domain). TLC model-checks algebraic laws of the definition over every node of "
+         "a bounded document family, and then acts as the oracle of trace validation: every recorded evaluation of the real evaluator "
+         "(systematic families + seeded random typed expressions, rendered to text and run through XPathProcessorImpl/XPath::execute) must equal Eval.",
+    note="Trusted: TLC; the AST-to-text renderer; the node-id projection of the harness. Numbers outside the dyadic domain (m/8, |x|<2^22) are dropped, "
+         "not judged; namespace axis, key(), document(), extension functions are not yet generated.",
+    technique="TLA+ executable semantics (TLC) as oracle; trace validation of recorded evaluations; TLC-checked laws of the definition")
+CHECKS["C11"] = dict(
+    category="model_checking", design_ref="DESIGN.md §5 C11",
+    text="For every op code of XPathExpression::eOpCodes that can head an expression (list read from the header at check time) and a matrix of "
+         "operand shapes, the six public XPath::execute entry points are run on the same compiled expression; TLC recomputes the general value "
+         "from XPathSem.tla and requires each typed result to be Convert(kind, value) - the standard boolean()/number()/string() conversion.",
+    note="Trusted: TLC, renderer, harness projection. The general value itself is C02's subject.",
+    technique="TLA+ executable semantics + conversion operators (TLC) validating recorded results of all six entry points")
+
 NOT_YET = {
 }
 
